@@ -512,7 +512,7 @@ def literals_near(exp):
         if isinstance(v, bool):
             continue
         if isinstance(v, int):
-            out += [v - 1, v + 1, float(v)] if abs(v) < 2 ** 53 else [v - 1, v + 1]
+            out += [v - 1, v + 1, float(v), v + 0.5, v - 0.5] if abs(v) < 2 ** 53 else [v - 1, v + 1]
         elif isinstance(v, float):
             out += [v - 0.5, v + 0.5]
         else:
